@@ -297,10 +297,27 @@ def recognise(tokens, start, lenient=False):
     return Recogniser(tokens, lenient).accepts(start)
 
 
+def duplicate_annotation(tokens):
+    """a property's annotation block names one key twice (rejected with a syntax error, cf. C18)"""
+    i, n = 0, len(tokens)
+    while i < n:
+        if tokens[i] == '#':
+            keys = set()
+            while i + 3 < n + 1 and i < n and tokens[i] == '#' and i + 2 < n and tokens[i + 2] == ':':
+                k = tokens[i + 1]
+                if k in keys:
+                    return True
+                keys.add(k)
+                i += 4
+        else:
+            i += 1
+    return False
+
+
 def verdict(tokens, start):
     s = recognise(tokens, start, False)
     if s:
-        return 'accept'
+        return 'reject' if duplicate_annotation(tokens) else 'accept'
     l = recognise(tokens, start, True)
     return 'ambiguous' if l else 'reject'
 
@@ -332,4 +349,6 @@ def selftest():
     assert verdict(T('globally : some b globally : no c'), 'file') == 'accept'
     assert verdict(T('globally : some b globally :'), 'file') == 'reject'
     assert verdict([], 'file') == 'reject'
+    assert verdict(T('# id : a # id : b globally : no x'), 'property') == 'reject'
+    assert verdict(T('# id : a globally : no x # id : a globally : no y'), 'file') == 'accept'
     assert verdict(T('( a or b ) causes ( c or d or e )'), 'pattern') == 'accept'
